@@ -569,6 +569,25 @@ Section DeMono.
   Lemma zipM_de_mono f f' ts l : f <= f' -> zipM (de f) ts l <> None -> zipM (de f') ts l <> None.
   Proof. intros Hle. apply zipM_lift. intros t' j. apply acc_mono. exact Hle. Qed.
 
-  (* the result itself is NOT monotone: with more fuel an earlier variant of an
-     untagged enum may start to accept (see notes/Covers.md) *)
 End DeMono.
+
+(* the result itself is NOT monotone: with more fuel an earlier variant of an
+   untagged enum starts to accept.  Space: 0 = untagged enum {V0(Box<Box<Value>>),
+   V1(Value)}, 1 = Box<2>, 2 = Box<3>, 3 = serde_json::Value. *)
+Definition nm_space : space :=
+  mkSpace
+    [ (0%N, mkEntry (DEnum [] None TagUntagged
+                           [mkVariant [] [] (VItem 1%N); mkVariant [] [] (VItem 3%N)] false []) []);
+      (1%N, mkEntry (DBox 2%N) []);
+      (2%N, mkEntry (DBox 3%N) []);
+      (3%N, mkEntry DJsonValue []) ]
+    4%N (mkSettings None [] false []) false false false false [].
+
+Theorem de_result_not_mono :
+  exists re native T f f' t v x y,
+    f <= f' /\ de re native T f t v = Some x /\ de re native T f' t v = Some y /\ x <> y.
+Proof.
+  exists (fun _ _ => true), (fun _ _ => true), nm_space, 2, 4, 0%N, JNull,
+         (REnum 1 (RJson JNull)), (REnum 0 (RJson JNull)).
+  split; [lia|]. split; [reflexivity|]. split; [reflexivity|]. discriminate.
+Qed.
